@@ -250,13 +250,19 @@ func VH_C18_cacheFullBuckets() bool {
 // keys, values and instants: deeper than cacheOps' 3 free operations at a fraction of the paths.
 var vScripts = [5]string{"PPDE", "PPEE", "PDPE", "PEPE", "PPEP"}
 
-// verif: unwind=24 cover=evicted,deleted,expired map_perm_max=1 bounds="locus 0..1 bytes, max 1..3, minPerBucket 0, five fixed 4-operation scripts (PPDE PPEE PDPE PEPE PPEP) with symbolic 1-byte keys, values and 3-bit instants"
+// verif: unwind=24 cover=evicted,deleted,expired map_perm_max=1 bounds="quick: empty locus (one bucket), max 1..3, scripts PPDE PPEE PDPE; thorough: locus 0..1 bytes, max 1..3, all five scripts (PPDE PPEE PDPE PEPE PPEP); minPerBucket 0, symbolic 1-byte keys, values and 3-bit instants"
 func VH_C18_cacheScripts() bool {
-	locus := vBytes(1)
+	var locus []byte
 	max := vInt(1, 3)
+	nscripts := 2
+	if vThorough() {
+		locus = vBytes(1)
+		max = vInt(1, 3)
+		nscripts = 4
+	}
 	c := NewCache[byte](locus, max, 0)
 	var model []vEnt
-	script := vScripts[vInt(0, 4)]
+	script := vScripts[vInt(0, nscripts)]
 	ok := true
 	for i := 0; i < len(script); i++ {
 		switch script[i] {
